@@ -9,7 +9,7 @@ GROUPS = ['GenObserve']
 HELPERS = ('resource_tracker import main', 'forkserver import main')
 POOL_THREADS = ('_results_handler', '_restart_handler', '_timeout_handler', '_unexpected_death_handler', '_progress_bar_handler',
                 'join_task_queues', 'Worker-')
-CAUSES = ['success', 'success_keepalive', 'success_apply', 'task_exception', 'init_exception', 'exit_exception', 'timeout', 'killed_worker',
+CAUSES = ['success', 'success_keepalive', 'success_apply', 'setter_restart', 'task_exception', 'init_exception', 'exit_exception', 'timeout', 'killed_worker',
           'sigint', 'abandoned_imap', 'terminate_during_imap', 'nested_misuse', 'stop_and_join']
 
 
@@ -61,15 +61,22 @@ def mk_cycle(rng, cause, sm, base):
     elif cause == 'abandoned_imap':
         call['kind'] = rng.choice(['imap', 'imap_unordered'])
         call['consume'] = 1
-    elif cause == 'terminate_during_imap':
-        call['kind'] = rng.choice(['imap', 'imap_unordered'])
-        call['consume'] = 2
-        calls = [call, {'kind': 'terminate'}]
     elif cause == 'nested_misuse':
         call['nested_misuse'] = True
     elif cause == 'stop_and_join':
         pool['keep_alive'] = True
-        calls = [call, {'kind': 'stop_and_join'}]
+        calls = [call, {'kind': 'stop_and_join', 'snapshot_after': True}]
+    elif cause == 'setter_restart':
+        # kept-alive workers, a setter between two calls: the second call shuts the old workers down for good and starts new ones
+        pool['keep_alive'] = True
+        call.pop('sigint', None)
+        calls = [call, {'kind': 'setter', 'name': 'set_shared_objects', 'args': [['s', 1]]},
+                 dict(call, base=base + 100, dynamic_extras=True, _shared=['s', 1]), {'kind': 'stop_and_join', 'snapshot_after': True}]
+        call['dynamic_extras'] = True
+    elif cause == 'terminate_during_imap':
+        call['kind'] = rng.choice(['imap', 'imap_unordered'])
+        call['consume'] = 2
+        calls = [call, {'kind': 'terminate', 'snapshot_after': True}]
     return {'pool': pool, 'calls': calls, 'cause': cause, 'behaviour': beh}
 
 
@@ -107,6 +114,12 @@ def oracle(rec):
         pe = cyc.get('pool_exc')
         if pe and not (spec['cause'] == 'sigint' and pe['type'] == 'KeyboardInterrupt'):
             return f"{tag}: the pool block raised {pe['type']}: {pe['args'][:120]}"
+        for c, o in zip(spec['calls'], cyc['calls']):
+            ac = o.get('after_call')
+            allowed = 1 if spec['pool'].get('enable_insights') else 0          # the store behind get_insights() may live on
+            if ac is not None and (pool_threads(ac) or len(live(ac)) > allowed):
+                return (f"{tag}: right after {c['kind']}() returned: helper threads {pool_threads(ac)}, "
+                        f"{len(live(ac))} live child process(es)")
         ae, ar = cyc['after_exit'], cyc['after_release']
         if pool_threads(ae):
             return f"{tag}: helper threads alive after the with-block: {pool_threads(ae)}"
